@@ -16,6 +16,20 @@ DECOY1 = bytes.fromhex('0279be667ef9dcbbac55a06295ce870b07029bfcdb2dce28d959f281
 DECOY2 = bytes.fromhex('02c6047f9441ed7d6d3045406e95c07cd85c778e4b8cef3ca7abac09b95c709ee5')          # 2G
 
 
+def small_r_or_s(sig):
+    """r or s below 2^248 (about 1 signature in 128): the DER integers then NEED fewer than 32 bytes.  Judged
+    by the VALUES read leniently, not by the declared lengths or the total length, so that a writer which
+    pads such an integer is seen as well (seeded change C05-17)"""
+    try:
+        lr = sig[3]
+        r = sig[4:4 + lr]
+        ls = sig[5 + lr]
+        s = sig[6 + lr:6 + lr + ls]
+    except IndexError:
+        return True
+    return int.from_bytes(r, 'big') < 1 << 248 or int.from_bytes(s, 'big') < 1 << 248
+
+
 NONDETERMINISTIC_OPS = {2}      # sign with OpenSSL's random nonce (see impl_run.py)
 
 
@@ -30,12 +44,7 @@ def run(op, a):
         # than usual (r or s with leading zero bytes, about 1 signature in 100)
         if (a[0][-1] + a[1][-1]) % 3 == 0:
             for _ in range(500):
-                try:
-                    lr = sig[3]
-                    ls = sig[5 + lr]
-                except IndexError:
-                    break
-                if lr < 32 or ls < 32:        # judged by the declared integer lengths, not by the total length
+                if small_r_or_s(sig):
                     break
                 sig = k.sign(a[1])
         return sig
